@@ -357,6 +357,31 @@ impl Sweep for Matrix {
                 }
                 judge_vm(op.text(), &text, &exp, ex, true, ctx);
             }
+            // whatever "equal" means for two near-equal floats, = and <> are complementary,
+            // and so are < / >= and > / <=
+            if !matches!(a, V::Str(_)) && !matches!(b, V::Str(_)) && ctx.begin(&format!("API complementarity of the relational operators on {} and {}", src(a), src(b))) {
+                for (p, q) in [(BinOp::Eq, BinOp::Ne), (BinOp::Lt, BinOp::Ge), (BinOp::Gt, BinOp::Le)] {
+                    let r = guard(|| (api_bin(p, to_val(a), to_val(b)), api_bin(q, to_val(a), to_val(b))));
+                    match r {
+                        Err(pn) => ctx.violation("relational/panic", pn),
+                        Ok((Ok(x), Ok(y))) => {
+                            let (x, y) = (from_val(&x), from_val(&y));
+                            let one_true = matches!((&x, &y), (Some(V::Int(-1)), Some(V::Int(0))) | (Some(V::Int(0)), Some(V::Int(-1))));
+                            let nan = match (a.as_f64(), b.as_f64()) {
+                                (Ok(u), Ok(v)) => u.is_nan() || v.is_nan(),
+                                _ => true,
+                            };
+                            if !one_true && !nan {
+                                ctx.violation(
+                                    &format!("{}-{}/not-complementary", p.text(), q.text()),
+                                    format!("{} {} {} gives {:?} and {} gives {:?}", src(a), p.text(), src(b), x, q.text(), y),
+                                );
+                            }
+                        }
+                        Ok(_) => {}
+                    }
+                }
+            }
         }
         ctx.sample();
     }
@@ -788,6 +813,14 @@ impl Sweep for Functions {
                 ctx.nontrivial(hash64(&(name, format!("{:?}", exp))));
             }
             judge_vm(name, &text, &exp, ex, true, ctx);
+        }
+        // VAL reads the documented number grammar at run time (exponent letters in either case)
+        if shard == 0 {
+            for s in ["1d2", "2.5d-1", "1.5d1", "1D2", "1e2", "1E2", "3.5e-1", "7", "-7.25", "&H1F", "&17", " 12 ", "12abc", ""] {
+                let exp = funcs::call("VAL", &[V::s(s)], 0);
+                judge_vm("VAL", &format!("VAL(\"{}\")", s), &exp, true, false, ctx);
+                judge_vm("VAL", &format!("VAL(\"{}\")+1", s), &exp.clone().and_then(|v| binop(BinOp::Add, &v, &V::Int(1))), true, false, ctx);
+            }
         }
         // assignment converts to the target's type
         for (var, ty) in [("A%", Ty::Int), ("A!", Ty::Sng), ("A#", Ty::Dbl), ("A$", Ty::Str), ("A", Ty::Sng), ("B%(2)", Ty::Int), ("C#(1,1)", Ty::Dbl)] {
